@@ -288,11 +288,12 @@ class InstWorld(World):
               "stalled_in_getInstance", "oneway_served", "oneway_first_call", "oneway_first_then_call_slow_session",
               "session_dropped_after_oneway_then_disconnect", "daemon_closed_with_open_connections", "served_after_daemon_close",
               "single_served_after_daemon_close", "unhashable_shape", "slots_shape", "slots_session_dropped_verified", "two_daemons", "second_daemon_after_first_was_shut_down",
-              "single_class_served_by_two_daemons", "served_by_subclass_instance", "session_served_by_subclass_instance", "session_dropped_although_disconnect_hook_raised", "session_dropped_after_daemon_close"]
+              "single_class_served_by_two_daemons", "unknown_object_call", "alias_registered_and_withdrawn",
+              "session_call_after_unknown_object_with_stale_alias", "served_by_subclass_instance", "session_served_by_subclass_instance", "session_dropped_although_disconnect_hook_raised", "session_dropped_after_daemon_close"]
     RULE = ("plan = (server type, serializer, 1-3 registered classes out of {single,session,percall} x {truthy, falsy via __len__, "
             "falsy via __bool__, __eq__ always True, __eq__ always False, __eq__ without __hash__ (unhashable), __slots__ without __weakref__ / "
             "__dict__, __slots__ with __eq__, __hash__ that raises} x {no creator, creator script of ok/raise/None/foreign "
-            "object per invocation; optionally a factory creator returning instances of a proper subclass}, optionally a second daemon serving the same classes (side by side or after the first was shut down), 2-4 clients x 1-3 connections (released or reset by the client; same or new proxy) x 0-4 calls, normal or one-way (a call may address another registered class over "
+            "object per invocation; optionally a factory creator returning instances of a proper subclass}, optionally an alias step (a class registered a second time under another id with force=True, that id withdrawn again, before the clients start or at a virtual time during the run), optionally a second daemon serving the same classes (side by side or after the first was shut down), 2-4 clients x 1-3 connections (released or reset by the client; same or new proxy) x 0-4 calls, normal, one-way or naming an unknown object id (a call may address another registered class over "
             "the same connection), construction time 0/0.05/0.9 virtual s per class, COMMTIMEOUT 0 or 0.3 s, optional barrier releasing all "
             "first calls together, a clientDisconnect hook that raises for chosen connections, optionally daemon.shutdown()/close() while every "
             "client keeps its last connection open followed by 0-2 more calls on it, pre-emption and stall probabilities); distinct = "
@@ -318,7 +319,7 @@ class InstWorld(World):
     CHUNK = 100
     SHRINK_LISTS = (["clients", "objs"] + ["clients.%d.sessions" % i for i in range(4)] +
                     ["clients.%d.sessions.%d.calls" % (i, j) for i in range(4) for j in range(3)] +
-                    ["objs.%d.creator" % k for k in range(3)] + ["hook_raises"] + ["clients.%d.after" % i for i in range(4)])
+                    ["objs.%d.creator" % k for k in range(3)] + ["hook_raises", "alias"] + ["clients.%d.after" % i for i in range(4)])
 
     # ------------------------------------------------------------------ plans
     def gen(self, rng, tier):
@@ -360,6 +361,8 @@ class InstWorld(World):
                 ob["sub"] = True
             objs.append(ob)
         nobj = len(objs)
+        aliasing = rng.random() < 0.15
+        p_unknown = 0.22 if aliasing else 0.06
         clients = []
         for ci in range(rng.randint(2, 4)):
             sessions = []
@@ -369,6 +372,8 @@ class InstWorld(World):
                 for j in range(rng.randint(1, 4) if si == 0 else rng.choice([0, 1, 2, 3, 4])):
                     o = rng.randrange(nobj) if (nobj > 1 and rng.random() < 0.15 and not (race and si == 0 and j == 0)) else so
                     k = "note" if rng.random() < (0.3 if j == 0 else 0.2) else "who"
+                    if j > 0 and rng.random() < p_unknown:
+                        k = "unknown"       # a request naming an object id the daemon does not know: error reply, nothing else changes
                     calls.append({"o": o, "k": k, "pause": rng.choice([0, 0, 0, 0.01])})
                 sessions.append({"o": so, "reuse": rng.random() < 0.5, "abort": rng.random() < 0.2, "calls": calls})
             cl = {"start": rng.choice([0, 0, 0.01, 0.3]), "sessions": sessions}
@@ -377,6 +382,12 @@ class InstWorld(World):
                                 "k": "note" if rng.random() < 0.2 else "who", "pause": 0} for _ in range(rng.randint(0, 2))]
             clients.append(cl)
         extra = {}
+        if aliasing:
+            # the class is registered a second time under another id (force=True) and that id is withdrawn again
+            sess_objs = [k for k, ob in enumerate(objs) if ob["mode"] == "session"]
+            extra["alias"] = [{"o": rng.choice(sess_objs) if (sess_objs and rng.random() < 0.7) else rng.randrange(nobj),
+                               "at": rng.choice([0, 0, 0, 0.005, 0.3, 0.6, 1.2]), "hold": rng.choice([0, 0, 0.3]),
+                               "by": rng.choice(["id", "id", "class"])} for _ in range(rng.choice([1, 1, 2]))]
         if not close_then_call and rng.random() < 0.12:
             # a second daemon in the same process serving the same classes, next to the first one or after it was shut down
             extra["daemon2"] = {"servertype": rng.choice(["thread", "multiplex"]), "when": rng.choice(["parallel", "parallel", "after"])}
@@ -596,7 +607,10 @@ class InstWorld(World):
             kind = c.get("k", "who")
             rec = {"conn": conn, "d": crec["d"], "key": o["key"], "tok": tok, "foreign": o is not so, "kind": kind, "phase": phase, "inv": sched.stamp()}
             try:
-                if kind == "note":
+                if kind == "unknown":
+                    p._pyroInvoke("who", [tok], {}, objectId="no-such-object")
+                    rec["out"] = ("ok", None)       # (never: the daemon knows no such object)
+                elif kind == "note":
                     if o is so:
                         p.note(tok)
                     else:
@@ -695,6 +709,42 @@ class InstWorld(World):
                 sched.ev("ended", conn, len(mine), tuple(left))
                 prev = (p, so)
 
+        alias_log = []      # (class key, stamp when the alias id had been withdrawn again)
+
+        def do_alias(n, a):
+            e = eff(a["o"])
+            aid = "alias%d" % n
+            try:
+                daemon.register(e["cls"], aid, force=True)
+                if a.get("hold"):
+                    sched.sleep(a["hold"])
+                daemon.unregister(e["cls"] if a.get("by") == "class" else aid)
+            except Exception as x:  # noqa
+                problems.append("alias registration failed: %s: %s" % (type(x).__name__, str(x)[:100]))
+                return
+            alias_log.append((e["key"], sched.stamp()))
+            sched.ev("alias", e["key"], aid, a.get("by"))
+
+        aliases = sorted(enumerate(plan.get("alias") or ()), key=lambda na: (na[1].get("at") or 0, na[0]))
+        later_aliases = []
+        for n, a in aliases:
+            if a.get("at"):
+                later_aliases.append((n, a))
+            else:
+                do_alias(n, a)          # before any client connects
+
+        def aliaser():
+            t0 = sched.now
+            for n, a in later_aliases:
+                dt = t0 + a["at"] - sched.now
+                if dt > 0:
+                    sched.sleep(dt)
+                do_alias(n, a)
+
+        alias_thread = None
+        if later_aliases:
+            alias_thread = threading.Thread(target=aliaser, name="bg-alias")
+            alias_thread.start()
         ths = [threading.Thread(target=client, args=(i, c), name="client%d" % i) for i, c in enumerate(plan["clients"])]
         phase2 = [t for t, c in zip(ths, plan["clients"]) if later and daemon_of(c)]
         phase1 = [t for t in ths if t not in phase2]
@@ -750,6 +800,11 @@ class InstWorld(World):
             else:
                 ctx.disturbed = "a client hung"
             return
+        if alias_thread is not None:
+            alias_thread.join(60.0)
+            at_ = sched.sim_thread_of(alias_thread)
+            if at_.died:
+                raise S.HarnessError("alias thread died: %r" % (at_.died,))
         sched.sleep(1.0)
         for _ in range(30):
             sched.quiesce()
@@ -777,10 +832,12 @@ class InstWorld(World):
             ctx.probe(servers[1].servertype)
         for m in run.made:
             m["d"] = conn_daemon.get(m["conn"])
-        self._judge(ctx, plan, run, by_key, calls, conns)
+        if alias_log:
+            ctx.probe("alias_registered_and_withdrawn")
+        self._judge(ctx, plan, run, by_key, calls, conns, alias_log)
 
     # ------------------------------------------------------------------ oracle
-    def _judge(self, ctx, plan, run, by_key, calls, conns):
+    def _judge(self, ctx, plan, run, by_key, calls, conns, alias_log=()):
         made_by_serial = {m["serial"]: m for m in run.made}
 
         def in_call(log, rec):
@@ -799,6 +856,15 @@ class InstWorld(World):
         for rec in calls:
             e = by_key[rec["key"]]
             out = rec["out"]
+            if rec["kind"] == "unknown":
+                # a request for an object id that the daemon does not know: the error reply is expected (DaemonError), and it
+                # must not change anything else - which the rules below check on the other calls of the connection
+                if out[0] == "err":
+                    ctx.probe("unknown_object_call")
+                elif out[0] == "ok":
+                    ctx.disturbed = "a call on an unknown object id was answered: %r" % (out,)     # not this property
+                    return
+                continue
             acts = [c for c in in_call(run.creator_log, rec) if c["key"] == rec["key"]]
             failing = [c["action"] for c in acts if c["action"] != "ok"]
             what = "%s %s on %s (connection %d)" % ("one-way call" if rec["kind"] == "note" else "call", rec["tok"], rec["key"], rec["conn"])
@@ -893,6 +959,15 @@ class InstWorld(World):
                     ctx.violate("unexpected-error-reply", "connection-lost", "%s lost its connection: %s: %s" % (what, out[1], out[2]))
             if failing:
                 failed_before.add(rec["key"])
+
+        # (probe: the whole recipe - stale alias, connection has its session instance, unknown-object request, another call)
+        for u in calls:
+            if u["kind"] == "unknown" and u["out"][0] == "err":
+                for key, stamp in alias_log:
+                    if by_key[key]["mode"] == "session" and stamp < u["inv"] and \
+                            any(r["conn"] == u["conn"] and r["key"] == key and "serial" in r and r["ret"] < u["inv"] for r in calls) and \
+                            any(r["conn"] == u["conn"] and r["key"] == key and "serial" in r and r["inv"] > u["ret"] for r in calls):
+                        ctx.probe("session_call_after_unknown_object_with_stale_alias")
 
         # ---- creator: every instance of a class with a creator was made by the creator
         for m in run.made:
